@@ -87,16 +87,19 @@ Section TcpProofs.
       exists pc', D'. split; [|split; [exact Hd'|cbn [nz]; lia]]. cbn [nz]. rewrite Hnz. f_equal. f_equal. lia.
     - destruct Hd as ((Hwl & Hcfg) & Ho & (Hcw & Hcwf) & Hb).
       set (D := if (d =? 0)%nat then sh_d0 sh else sh_d1 sh) in *.
-      unfold half_close_step. cbn [nz]. replace (sh_wg sh - (1 - 1)) with (sh_wg sh) by lia.
+      unfold half_close_step.
+      assert (Hwg : sh_wg sh - (nz PHalf - nz PWg) = sh_wg sh) by (cbn [nz]; lia).
       pose proof (dispatch_never_closes (d_cfg D)) as Hnc.
       destruct (close_write_dispatch (d_cfg D)) eqn:E; [| | |congruence]; rewrite Hcfg in E.
-      + eexists; eexists. split; [reflexivity|]. split; [|lia]. unfold d_with.
+      + exists PWg, (d_with D (d_rd D) (d_out D) (d_cw D) (d_cwf D + 1) (d_bytes D) (d_err D)).
+        rewrite Hwg. split; [reflexivity|]. split; [|cbn [nz]; lia]. unfold d_with.
         split; [cbn [d_wlimit d_cfg]; auto|]. cbn [d_out d_cw d_cwf d_bytes]. unfold ncw, ncwf. rewrite E.
         split; [auto|]. split; [split; lia|exact Hb].
-      + eexists; eexists. split; [reflexivity|]. split; [|lia]. unfold d_with.
+      + exists PWg, (d_with D (d_rd D) (d_out D) (d_cw D + 1) (d_cwf D) (d_bytes D) (d_err D)).
+        rewrite Hwg. split; [reflexivity|]. split; [|cbn [nz]; lia]. unfold d_with.
         split; [cbn [d_wlimit d_cfg]; auto|]. cbn [d_out d_cw d_cwf d_bytes]. unfold ncw, ncwf. rewrite E.
         split; [auto|]. split; [split; lia|exact Hb].
-      + exists PWg, D. split; [reflexivity|]. split; [|lia].
+      + exists PWg, D. rewrite Hwg. split; [reflexivity|]. split; [|cbn [nz]; lia].
         split; [auto|]. unfold ncw, ncwf. rewrite E. split; [auto|]. split; [split; lia|exact Hb].
     - exists PDone, (if (d =? 0)%nat then sh_d0 sh else sh_d1 sh). split.
       + cbn [nz]. replace (sh_wg sh - (1 - 0)) with (sh_wg sh - 1) by lia. reflexivity.
@@ -139,8 +142,6 @@ Section TcpProofs.
     - destruct Hm as (Hz & ? & ? & ?). repeat split; auto. lia.
   Qed.
 
-  Lemma nz_step_le data pc pc' D D' : dinv data pc D -> dinv data pc' D' -> nz pc - nz pc' <= nz pc.
-  Proof. intros _ _. lia. Qed.
 
   Theorem Inv_step : forall s i, Inv s -> Inv (sys_step tsh (nat * tpc) (tstep CopyBuf) s i).
   Proof.
